@@ -126,6 +126,13 @@ def impl_checks(ctx):
                 if got_f.size != 1 or not dom.relclose(float(got_f[0]), want_f, 1e-12, 1e-300):
                     bad("dgor_dpressure_Standing depends on the container / dtype in which the pressure is given (" + fname + ")",
                         dict(T=T, p=float(pval), api=api, gg=gg, Rsi=rsi, pb=pb, form=fname), [float(x) for x in got_f], want_f)
+        if k % 20 == 7:
+            rep = lambda what, i_, got_, want_: bad(what, i_, got_, want_)
+            Tw = float(rng.uniform(60, 350))
+            ev += dom.check_forms(lambda q: water.b_water_McCain_dp(Tw, q), float(int(rng.uniform(100, 9000))), dom.SCALAR_FORMS + dom.ARRAY1_FORMS, rep,
+                                  "water.b_water_McCain_dp", dict(T=Tw))
+            ev += dom.check_forms(lambda q: oil.db_o_dgor_Standing(T, api, gg, q), float(int(rng.uniform(30, 2400))), dom.SCALAR_FORMS + dom.ARRAY1_FORMS, rep,
+                                  "oil.db_o_dgor_Standing (as a function of the GOR)", dict(T=T, api=api, gg=gg))
         r = dom.loguniform(rng, 1, 3000)
         d, how = derivative(lambda q: oil.b_o_bubblepoint_Standing(T, api, gg, q), r)
         got = float(oil.db_o_dgor_Standing(T, api, gg, r))
